@@ -144,3 +144,21 @@ func TestMinimize(t *testing.T) {
 	WriteReplay(path, r)
 	fmt.Printf("MINIMIZE: %d actions\n", len(acts))
 }
+
+// TestDigest executes a saved history and prints the state digest after every action (used to
+// compare executions across operating-system processes for C20).
+func TestDigest(t *testing.T) {
+	path := os.Getenv("VERIF_REPLAY_FILE")
+	if path == "" {
+		t.Skip("VERIF_REPLAY_FILE not set")
+	}
+	r, err := ReadReplay(path)
+	if err != nil {
+		t.Fatalf("cannot read replay: %v", err)
+	}
+	w := NewWorld(r.Config)
+	for _, a := range r.Actions {
+		rec := w.Step(a)
+		fmt.Printf("DIGEST %s\n", rec.Post.Digest())
+	}
+}
